@@ -430,10 +430,55 @@ def r01_4(ctx):
     return r
 
 
+CASE_PRED = re.compile(r"^(is_ascii_\w+|is_lowercase|is_uppercase|is_alphabetic|is_alphanumeric|is_numeric|to_ascii_\w+|eq_ignore_ascii_case)$")
+ON_PARAM_METHODS = {"as_bytes", "starts_with", "strip_prefix", "len", "bytes", "chars", "get", "as_str", "as_ref", "is_empty"}
+
+
+def r01_8(ctx):
+    """the listener predicate (`is_on`) is Vue's isOn: /^on[^a-z]/ — `on` followed by a byte that is not an ASCII lowercase letter, and nothing else"""
+    r = Rule("R01.8", "the listener predicate is Vue's `isOn` (/^on[^a-z]/): the first two bytes are `on`, the third is not an ASCII lower-case letter, and the answer depends on nothing else",
+             "listener keys such as `on:click`, `on-foo` or `onUpdate:modelValue` are no longer recognised: repeated ones are not merged (the later one is dropped) and their hydration hint is lost")
+    b = C.role_or_fail(ctx, r, "on_pred")
+    if not b:
+        return r
+    r.saw(b["path"])
+    strs = sorted({const_str(n) for n in walk(b["body"]) if isinstance(const_str(n), str)})
+    r.ob("the only string the predicate compares with is `on`", set(strs) <= {"on"}, C.mloc(b, b), "string constants %s" % strs if strs else "no string constant (byte pattern)")
+    params = {p_.get("id") for p_ in walk(b.get("params", [])) if isinstance(p_, dict) and p_.get("k") == "PBind"} if b.get("params") else set()
+    other = []
+    preds = []
+    parents = {}
+    for par in walk(b["body"]):
+        for ch in (par.values() if isinstance(par, dict) else []):
+            for c in (ch if isinstance(ch, list) else [ch]):
+                if isinstance(c, dict):
+                    parents[id(c)] = par
+    for n in walk(b["body"]):
+        if n.get("k") == "MethodCall":
+            rc = strip_transparent(n.get("recv")) if isinstance(n.get("recv"), dict) else None
+            if CASE_PRED.match(n.get("method", "")):
+                par = parents.get(id(n))
+                while par is not None and par.get("k") in ("DropTemps", "Paren"):
+                    par = parents.get(id(par))
+                preds.append((n["method"], bool(par is not None and par.get("k") == "Unary" and par.get("op") == "!"), n))
+            elif rc is not None and rc.get("k") == "Path" and (rc.get("res") or {}).get("r") == "local" and (not params or rc["res"].get("id") in params) and n["method"] not in ON_PARAM_METHODS and rc.get("ty", "").replace("&", "").strip() in ("str", "alloc::string::String", "swc_atoms::Atom"):
+                other.append(n["method"])
+    r.ob("nothing but the leading bytes of the name is consulted", not other, C.mloc(b, b), "no further method on the name" if not other else "the name is also passed to %s" % sorted(set(other)))
+    ranges = [n for n in walk(b["body"]) if n.get("k") == "PRange"]
+    good = [p_ for p_ in preds if p_[0] == "is_ascii_lowercase" and p_[1]]
+    bad = [p_ for p_ in preds if not (p_[0] == "is_ascii_lowercase" and p_[1])]
+    ok = bool(good) and not bad or (not preds and bool(ranges) and "97..=122" in expr_str(b["body"]).replace(" ", ""))
+    r.ob("third byte: `not an ASCII lower-case letter`", ok, C.mloc(b, (bad or good or [(0, 0, b)])[0][2]),
+         "`!c.is_ascii_lowercase()`" if ok else ("the test on the third byte is %s: `on:click`, `on-foo`, `on_x` (not upper case, not lower case) change sides" % [("!" if p_[1] else "") + p_[0] for p_ in preds] if preds else "no recognised test on the third byte"))
+    pats = [n for n in walk(b["body"]) if n.get("k") == "PLit" and n.get("lit") == "byte"]
+    r.ob("first two bytes: `o`, `n`", [p_.get("v") for p_ in pats][:2] == [111, 110] or "on" in strs, C.mloc(b, b), "byte pattern %s" % [p_.get("v") for p_ in pats] if pats else "starts_with(\"on\")")
+    return r
+
+
 def rules(ctx):
     from ..engine import only
     from . import c02
-    return [__import__('vjsx.rules.c10', fromlist=['x']).field_ratchet('a memo on the visitor makes the props of one element depend on an earlier one'), r01_1, r01_2, r01_3, r01_4, r01_5, r01_6, r01_7, c14.r14_6, c02.r02_1, c02.r02_5,
+    return [__import__('vjsx.rules.c10', fromlist=['x']).field_ratchet('a memo on the visitor makes the props of one element depend on an earlier one'), r01_1, r01_2, r01_3, r01_4, r01_5, r01_6, r01_7, r01_8, c14.r14_6, c02.r02_1, c02.r02_5,
             only(c07.r07_6, lambda k: "transform_attrs" in k or k.startswith("JSX attribute literal"), "string attribute values"),
             c11.r11_4]
 
